@@ -12,6 +12,7 @@ logic is the rule by which `TypedPath::derive` picks the tag from raw bytes:
 * `derive_stable`: the tag of a path with a complete prefix does not depend on what follows the prefix.
 -/
 import TypedPathVerif.Lemmas.WinStable
+import TypedPathVerif.Generated.Api
 
 namespace TP.C15
 
@@ -63,5 +64,9 @@ example : deriveIsWindows [92, 97] = true := by decide                -- \a
 example : deriveIsWindows [47, 97] = false := by decide               -- /a
 example : deriveIsWindows [97, 92, 98] = false := by decide           -- a\b
 example : deriveIsWindows [] = false := by decide
+
+/-- every public method the `typed` group of source files declares now is called by the harness
+(regenerated table, gen/api.py): a method added without a transcript line breaks this -/
+theorem api_exercised_typed : Generated.apiUnexercised_typed = [] := rfl
 
 end TP.C15
